@@ -570,6 +570,35 @@ func (m *Model) eval(n *N, env *MEnv) res {
 			return r
 		}
 		return m.call(f.v, args, kw)
+	case KTry:
+		recv := m.ev("try/recv", n.A, env)
+		if recv.c == cRaise {
+			return recv
+		}
+		f := m.ev("try/fn", n.B, env)
+		if f.c == cRaise {
+			return f
+		}
+		r := m.callAs("try", f.v, []Val{recv.v}, nil)
+		failed := r.c == cRaise
+		switch n.Str {
+		case "val":
+			if failed {
+				return norm(vNil)
+			}
+			return norm(r.v)
+		case "or":
+			if failed {
+				return m.eval(n.C, env)
+			}
+			if r.v.T == "nil" {
+				return norm(vOpq) // how a nil value is reported by `or` is not stated
+			}
+			return norm(r.v)
+		case "err?":
+			return norm(vBool(failed))
+		}
+		return m.giveUp("unknown try accessor")
 	case KPropC:
 		return m.propCall(n, env)
 	case KLitC, KVarC:
